@@ -848,6 +848,16 @@ impl TryFrom<&BytesMut> for Parse {
         let num_params = cursor.get_i16();
         let mut param_types = Vec::new();
 
+        // The count must be matched by the bytes that follow: the message is re-encoded from
+        // these fields, and a length that disagrees with the content desynchronizes the server.
+        if num_params < 0 || cursor.remaining() < 4 * num_params as usize {
+            return Err(Error::ParseBytesError(format!(
+                "Parse message announces {} parameter types but carries {} bytes for them",
+                num_params,
+                cursor.remaining()
+            )));
+        }
+
         for _ in 0..num_params {
             param_types.push(cursor.get_i32());
         }
